@@ -121,7 +121,10 @@ func (r *Rng) ecsOpt() optSpec {
 		return optSpec{code: 8, data: append([]byte{0, 2, 56, 0}, r.Bytes(7)...)}
 	case 4: // v6 /128 but short data (>=8, <20)
 		return optSpec{code: 8, data: append([]byte{0, 2, 128, 0}, r.Bytes(4+r.Intn(12))...)}
-	case 5: // short ecs
+	case 5: // short ecs: random bytes, or a well-formed family/prefix header with a truncated address
+		if r.Bool() {
+			return optSpec{code: 8, data: append([]byte{0, byte(1 + r.Intn(2)), byte(r.Pick([]int{32, 128, 24, 0})), 0}, r.Bytes(r.Intn(4))...)}
+		}
 		return optSpec{code: 8, data: r.Bytes(r.Intn(8))}
 	case 6: // unknown family
 		return optSpec{code: 8, data: append([]byte{0, byte(r.Intn(5)), 32, 0}, r.Bytes(4+r.Intn(20))...)}
